@@ -204,7 +204,7 @@ func canOmitStart(n, parent *Node, kids []*Node, i int, avoid bool) bool {
 
 // resolve computes the effective omission flags for the whole tree.
 func resolve(n *Node, avoid bool) {
-	for i, k := range n.Kids {
+	for _, k := range n.Kids {
 		if k.Kind != KElem {
 			continue
 		}
